@@ -72,30 +72,23 @@ Theorem C39_htcp_unpackers_in_bounds : forall (stale : Z -> Z) (d : list Z),
 Proof. exact htcp_unpackers_in_bounds. Qed.
 Print Assumptions C39_htcp_unpackers_in_bounds.
 
-(* --- SNMP: the full statement is false for the code as it is --- *)
-(* a receivable datagram (4095 bytes) for which snmp_msg_Decode's readers leave the 4096-byte buffer of snmpHandleUdp,
-   whatever the buffer held before (it is zeroed) *)
-Theorem C39_snmp_in_bounds_refuted :
-  exists d, Forall is_byte d /\ lenZ d <= snmp_request_size - snmp_recv_slack /\
-            forall stale, snmp_udp snmp_request_size (snmp_request_size - snmp_recv_slack) stale d = Got OOB.
-Proof. exact snmp_in_bounds_refuted. Qed.
-Print Assumptions C39_snmp_in_bounds_refuted.
-
-(* what does hold: every datagram that leaves six bytes of the buffer unused is decoded inside the buffer *)
-Theorem C39_snmp_in_bounds_partial : forall (stale : Z -> Z) (d : list Z),
-  Forall is_byte d -> (forall i, is_byte (stale i)) -> lenZ d + 6 <= snmp_request_size ->
+(* --- SNMP: no datagram (up to the sizeof(buf)-1 bytes snmpHandleUdp receives) takes snmp_parse / snmp_msg_Decode and
+       the ASN.1 readers outside the SNMP_REQUEST_SIZE-byte buffer or the fixed destinations (Community[128], the
+       MAX_NAME_LEN-element object identifiers, the value strings)
+       [holds since /repo 71f8893 (asn_header_fits); before it a 4095-byte datagram was read 1..3 bytes past the buffer] --- *)
+Theorem C39_snmp_in_bounds : forall (stale : Z -> Z) (d : list Z),
+  Forall is_byte d -> (forall i, is_byte (stale i)) ->
   snmp_udp snmp_request_size (snmp_request_size - snmp_recv_slack) stale d <> Got OOB /\
   snmp_udp snmp_request_size (snmp_request_size - snmp_recv_slack) stale d <> Got NoFuel.
-Proof. exact snmp_in_bounds_partial. Qed.
-Print Assumptions C39_snmp_in_bounds_partial.
+Proof. exact snmp_in_bounds. Qed.
+Print Assumptions C39_snmp_in_bounds.
 
-(* the same for the decoder itself on ANY object: with six bytes after the [len] bytes it is asked to decode,
-   snmp_msg_Decode (asn_parse_* , snmp_pdu_decode, snmp_var_DecodeVarBind, fixed destinations included) stays in bounds *)
-Theorem C39_snmp_decoder_in_bounds_with_slack_partial : forall (b : buf) (len : Z),
-  bytes_ok b -> 0 <= len -> len + 6 <= bsize b -> len < 2147483648 ->
+(* the decoder itself on ANY object: one byte after the [len] bytes it is asked to decode suffices *)
+Theorem C39_snmp_decoder_in_bounds_on_any_object : forall (b : buf) (len : Z),
+  bytes_ok b -> 0 <= len -> len + 1 <= bsize b -> len < 2147483648 ->
   snmp_msg_decode b len <> OOB /\ snmp_msg_decode b len <> NoFuel.
 Proof. exact snmp_msg_decode_safe. Qed.
-Print Assumptions C39_snmp_decoder_in_bounds_with_slack_partial.
+Print Assumptions C39_snmp_decoder_in_bounds_on_any_object.
 
 (* --- the hypotheses are satisfiable, the decoders accept real messages --- *)
 Example C39_snmp_get_is_decoded :
@@ -121,6 +114,12 @@ Example C39_htcp_tst_specifier_is_unpacked :
   end.
 Proof. vm_compute. split; reflexivity. Qed.
 
-Example C39_snmp_witness_is_receivable :
-  lenZ snmp_witness = 4095 /\ lenZ snmp_witness <= snmp_request_size - snmp_recv_slack.
-Proof. vm_compute. split; congruence. Qed.
+(* the former over-read witness (4095 bytes, last variable `30 00` at the very end) is receivable and now refused *)
+Example C39_snmp_former_witness_refused : forall stale,
+  lenZ snmp_witness = snmp_request_size - snmp_recv_slack /\
+  snmp_udp snmp_request_size (snmp_request_size - snmp_recv_slack) stale snmp_witness = Got Fail.
+Proof. exact snmp_witness_refused. Qed.
+
+(* the one byte of slack is needed: on an object of exactly the datagram's size an empty INTEGER at the end is over-read *)
+Example C39_snmp_exact_size_object_needs_the_spare_byte : snmp_exact [48; 2; 2; 0] = Got OOB.
+Proof. exact snmp_exact_needs_one_byte. Qed.
